@@ -99,6 +99,8 @@ var e3Runs int
 // left behind by an earlier one (a lazily built global, a process-wide cache or pool).
 var e3Globals *vsched.GlobalSnapshot
 
+func init() { cleanPackageState = e3RestoreGlobals }
+
 func e3RestoreGlobals() {
 	if e3Globals == nil {
 		e3Globals = vsched.SnapshotGlobals(restful.VerifGlobals())
